@@ -217,7 +217,10 @@ class Fn:
     def pred(self, b):
         if self._pred is None:
             self._pred = [[] for _ in self.blocks]
+            live = self.reachable()
             for bl in self.blocks:
+                if bl.idx not in live:
+                    continue        # blocks cut off by constant / infallible-arm pruning are nobody's predecessor
                 for s in self.succ(bl.idx):
                     self._pred[s].append(bl.idx)
         return self._pred[b]
